@@ -41,6 +41,19 @@ func Harness_C11_create_account_login() {
 	login := verifNondetBool("login")
 	msg := &ClientComMessage{Acc: &MsgClientAcc{Id: "r1", User: "new", Scheme: "basic", Secret: []byte("alice:pwd"), Login: login},
 		Id: "r1", Timestamp: types.TimeNow()}
+	// credentials sent along: none, a known method, an unknown method (with or without a value), both
+	globals.validators = map[string]credValidator{"email": {}}
+	verifValidators = map[string]*verifValidator{"email": {}}
+	switch verifChoose("creds", 5) {
+	case 1:
+		msg.Acc.Cred = []MsgCredClient{{Method: "email", Value: "a@b.c"}}
+	case 2:
+		msg.Acc.Cred = []MsgCredClient{{Method: "fax", Value: "x"}}
+	case 3:
+		msg.Acc.Cred = []MsgCredClient{{Method: "fax"}}
+	case 4:
+		msg.Acc.Cred = []MsgCredClient{{Method: "fax", Value: "x", Response: "123"}, {Method: "email", Value: "a@b.c"}}
+	}
 	s.dispatch(msg)
 	replies := verifDrainSend(s)
 	n, code := 0, 0
